@@ -378,6 +378,38 @@ impl WeakLinkFilter {
     }
 }
 
+/// State observation for the out-of-tree checker (feature `verif-hooks`).
+#[cfg(feature = "verif-hooks")]
+impl WeakLinkFilter {
+    /// Per-connection hysteresis memory, sorted by `conn_id`:
+    /// `(conn_id, prev_weak, delay_weak_streak, weak_streak, probation_ticks)`,
+    /// `None` where the respective map has no entry for that id.
+    #[allow(clippy::type_complexity)]
+    pub fn verif_dump(&self) -> Vec<(u64, Option<bool>, Option<u32>, Option<u32>, Option<u32>)> {
+        let mut ids: Vec<u64> = self
+            .prev_weak
+            .keys()
+            .chain(self.delay_weak_streak.keys())
+            .chain(self.weak_streak.keys())
+            .chain(self.probation_ticks.keys())
+            .copied()
+            .collect();
+        ids.sort_unstable();
+        ids.dedup();
+        ids.into_iter()
+            .map(|id| {
+                (
+                    id,
+                    self.prev_weak.get(&id).copied(),
+                    self.delay_weak_streak.get(&id).copied(),
+                    self.weak_streak.get(&id).copied(),
+                    self.probation_ticks.get(&id).copied(),
+                )
+            })
+            .collect()
+    }
+}
+
 fn derive_max_delay_budget(longest_rtt_ms: u32) -> u32 {
     let raw = (longest_rtt_ms as f64 * RTT_TO_DELAY_BUDGET_MULT) as u32;
     raw.clamp(MIN_BUDGET_MS, MAX_BUDGET_MS)
